@@ -44,8 +44,10 @@ CLAIMS = {
             "over the ghost history with exact rational arithmetic (Inv_C02_NormalEq/Solves/Unobserved); every edge "
             "replayed on LinGreedy/LinUCB/LinTS: A, Xty exactly, beta and expectations against exact x.beta and "
             "x'A^-1x (plus numpy.linalg.solve as a second oracle), d in {1,2}, m in {1,2,3,1025,1500}, scale=True "
-            "single fit through a rational identity; beyond the exact model seeded histories with d <= 12 and real-valued "
-            "data against numpy.linalg.solve on the raw history", "0.6, 6.C02"),
+            "single fit through a rational identity; LinScale.tla: scale=True over several training calls (running moments by "
+            "the incremental recurrence = moments of all rows of the arm, one segment per call; Inv_C02_RunningMoments/"
+            "Segments/LastSegmentCurrent), every edge replayed: scaler moments, A, Xty, expectations; beyond the exact model "
+            "seeded histories with d <= 12 and real-valued data against numpy.linalg.solve on the raw history", "0.6, 0.8, 6.C02"),
     "C03": ("Nbhd.tla: exact distances on integer grids, RadiusSet (boundary included) and all tie-valid KSets; "
             "recorded executions of real Radius/KNearest bandits validated by TraceNbhd.tla, which also prints "
             "the set of documented results per query (learning policy trained from scratch on the selected rows) "
